@@ -264,8 +264,14 @@ class Report(object):
             wit |= s.witnesses
         wit |= set(self.engine_stats.get('witnesses', []))
         missing_w = [w for w in self.required_witnesses if w not in wit]
+        truncated = any(s.unexplored for s in self.sections)
         for w in missing_w:
-            herr.append({'message': 'vacuity: witness %r never satisfied' % w})
+            if truncated:
+                # a path budget or the wall-clock cap cut the exploration: the witness may lie in the unexplored part; this is
+                # reported (evidence: exhaustive=false, note) but it is not a vacuous harness
+                self.notes.append('witness %r not reached within the explored part (exploration truncated by budget / deadline)' % w)
+            else:
+                herr.append({'message': 'vacuity: witness %r never satisfied' % w})
         known = self.known()
         open_known = [k for k in known if k.get('status', 'open') == 'open']
         new, listed = [], {}
